@@ -20,11 +20,20 @@ Local Open Scope N_scope.
 (* route.BGPPathA *)
 Record ablock := mkA {
   a_nh : N; a_src : N; a_lp : N; a_med : N; a_bgpid : N; a_oid : N; a_agg : option (N * N);
-  a_ebgp : bool; a_atomic : bool; a_origin : N; a_otc : N }.
+  a_ebgp : bool; a_atomic : bool; a_origin : N; a_otc : N;
+  (* BGPPathA holds POINTERS to its addresses and the cache compares them as such. Addresses from the wire and
+     from the configuration are deduplicated objects (pointer = value); route.NewBGPPathA() however makes a
+     fresh 0.0.0.0 object for Source each time, so a redistributed path's block can only ever be shared with
+     copies of itself: a_uniq is 0 for ordinary blocks and a fresh number for those. *)
+  a_uniq : N }.
 
 Definition a_of (b : bgp) : ablock :=
   mkA (b_nh b) (b_src b) (b_lp b) (b_med b) (b_bgpid b) (b_oid b) (b_agg b) (b_ebgp b) (b_atomic b)
-      (b_origin b) (b_otc b).
+      (b_origin b) (b_otc b) 0.
+
+Definition set_uniq (u : N) (a : ablock) : ablock :=
+  mkA (a_nh a) (a_src a) (a_lp a) (a_med a) (a_bgpid a) (a_oid a) (a_agg a) (a_ebgp a) (a_atomic a)
+      (a_origin a) (a_otc a) u.
 
 Definition with_a (a : ablock) (b : bgp) : bgp :=
   mkBgp (a_nh a) (a_src a) (a_lp a) (a_med a) (a_bgpid a) (a_oid a) (a_agg a) (a_ebgp a) (a_atomic a)
@@ -64,14 +73,14 @@ Definition read (h : heap) (o : N) : option path :=
 (* Path.Copy *)
 Definition alloc_copy (h : heap) (o : N) : heap * N :=
   match obj_get o (objs h) with
-  | None => (h, o)                                            (* not reachable *)
+  | None => (h, nxt h)                                        (* not reachable; nothing lives at nxt h *)
   | Some ob =>
     match o_blk ob with
     | Some k =>
       match blk_get k (blks h) with
       | Some a => (mkHeap ((nxt h, mkObj (o_val ob) (Some (nxt h + 1))) :: objs h)
                           ((nxt h + 1, a) :: blks h) (cache h) (nxt h + 2), nxt h)
-      | None => (h, o)                                        (* not reachable *)
+      | None => (h, nxt h)                                    (* not reachable *)
       end
     | None => (mkHeap ((nxt h, ob) :: objs h) (blks h) (cache h) (nxt h + 1), nxt h)
     end
@@ -83,8 +92,11 @@ Definition write_full (h : heap) (o : N) (v : path) : heap :=
   match obj_get o (objs h), v with
   | Some ob, PBgp r b =>
     match o_blk ob with
-    | Some k => mkHeap ((o, mkObj v (Some k)) :: objs h) ((k, a_of b) :: blks h) (cache h) (nxt h)
-    | None => mkHeap ((o, mkObj v (Some (nxt h))) :: objs h) ((nxt h, a_of b) :: blks h) (cache h) (nxt h + 1)
+    | Some k =>
+      let u := match blk_get k (blks h) with Some a => a_uniq a | None => 0 end in
+      mkHeap ((o, mkObj v (Some k)) :: objs h) ((k, set_uniq u (a_of b)) :: blks h) (cache h) (nxt h)
+    | None => mkHeap ((o, mkObj v (Some (nxt h))) :: objs h) ((nxt h, set_uniq (nxt h + 1) (a_of b)) :: blks h)
+                     (cache h) (nxt h + 1)
     end
   | Some ob, PStatic _ => mkHeap ((o, mkObj v (o_blk ob)) :: objs h) (blks h) (cache h) (nxt h)
   | None, _ => h
